@@ -163,7 +163,11 @@ pub fn run_case(case: &mut Case) {
             continue;
         }
         // program name: plain, a path, non-ASCII, or a file name that is not UTF-8
-        let (arg0, name): (Vec<u8>, Option<String>) = match rng.below(5) {
+        let (arg0, name): (Vec<u8>, Option<String>) = match rng.below(9) {
+            5 => (b"prog.v2".to_vec(), Some("prog.v2".into())),
+            6 => (b"/opt/tools/seeded.prog".to_vec(), Some("seeded.prog".into())),
+            7 => (b"./.hidden".to_vec(), Some(".hidden".into())),
+            8 => (b"/x/a.b.c".to_vec(), Some("a.b.c".into())),
             0 => (b"app".to_vec(), Some("app".into())),
             1 => (b"/usr/local/bin/my-tool".to_vec(), Some("my-tool".into())),
             2 => (b"./rel/path/x y".to_vec(), Some("x y".into())),
